@@ -229,22 +229,24 @@ but no other interpretation is applied
                         # EUPS_PATH is really an environment variable, but handle it here
                         # if the user chose to subscript it, e.g. ${EUPS_PATH[0]}
                         #
-                        mat = re.search(r"\${EUPS_PATH\[(\d+)\]}", value)
-                        if mat:
-                            ind = int(mat.group(1))
-                            value = re.sub(r"\[(\d+)\]}$", "", value) + "}"
-
+                        if re.search(r"\${EUPS_PATH\[(\d+)\]}", value):
                             if "EUPS_PATH" not in os.environ:
                                 if not quiet:
-                                    print("%s is not defined; not setting %s" % (value, a.args[0]), file=utils.stdwarn)
+                                    print("${EUPS_PATH} is not defined; not setting %s" % a.args[0], file=utils.stdwarn)
                                 continue
 
-                            try:
-                                value = os.environ["EUPS_PATH"].split(":")[ind]
-                            except IndexError:
-                                if product.Eups.verbose > 0 and not quiet:
-                                    print("Invalid index %d for \"%s\"; not setting %s" % \
-                                          (ind, os.environ["EUPS_PATH"], a.args[0]), file=utils.stderr)
+                            eupsPath = os.environ["EUPS_PATH"].split(":")
+                            def element(mat):
+                                """Return the element of EUPS_PATH that mat asks for"""
+                                try:
+                                    return eupsPath[int(mat.group(1))]
+                                except IndexError:
+                                    if not quiet:
+                                        print("Invalid index %s for \"%s\"; not setting %s" % \
+                                              (mat.group(1), os.environ["EUPS_PATH"], a.args[0]), file=utils.stderr)
+                                    return "${EUPS_PATH}"
+                            # replace each subscripted reference, not the whole value, by its element
+                            value = re.sub(r"\${EUPS_PATH\[(\d+)\]}", element, value)
 
                         a.args[i] = value
 
